@@ -166,7 +166,7 @@ pub fn constrain(mods: &ModuleSet, loc: &Locator) -> Result<InferenceSet> {
             };
             set.push(get_tag(node), tag, node.span());
         } else if let Some(app) = syn::Application::cast(node) {
-            let bindings = app.arguments().map(|a| get_tag(a.node())).collect();
+            let bindings = app.argument_nodes().map(get_tag).collect();
             let range = get_tag(node).into();
             let lambda = get_tag(app.lambda().node());
             set.push(lambda, Tag::Func(FuncTag { bindings, range }), node.span());
